@@ -81,6 +81,10 @@ pub struct NotifScenario {
     /// carrier window applied to the A->B pipe once the stream is open
     pub window: Option<usize>,
     pub program: Vec<Op>,
+    /// the receiver's protocol has another main name and knows the sender's name only as a fallback name: the stream is
+    /// negotiated under a fallback name on the receiving side
+    #[serde(default)]
+    pub receiver_fallback: bool,
 }
 
 #[derive(Debug, Clone)]
@@ -297,8 +301,15 @@ impl Scenario for NotifScenario {
     }
 
     fn setup(&self, w: &mut World) -> St {
-        let mk = |max: usize| {
-            NotifConfigBuilder::new(proto())
+        let receiver_fallback = self.receiver_fallback;
+        let mk = |max: usize, receiver: bool| {
+            let builder = if receiver && receiver_fallback {
+                // the receiver's main name differs; it accepts the sender's name as a fallback name
+                NotifConfigBuilder::new(ProtocolName::from("/verif/notif/2")).with_fallback_names(vec![proto()])
+            } else {
+                NotifConfigBuilder::new(proto())
+            };
+            builder
                 .with_max_size(max)
                 .with_handshake(vec![1, 2, 3, 4])
                 .with_auto_accept_inbound(true)
@@ -306,8 +317,8 @@ impl Scenario for NotifScenario {
                 .with_async_channel_size(self.chan)
                 .build()
         };
-        let (cfg_a, handle_a) = mk(self.max_sender.unwrap_or(self.max));
-        let (cfg_b, handle_b) = mk(self.max);
+        let (cfg_a, handle_a) = mk(self.max_sender.unwrap_or(self.max), false);
+        let (cfg_b, handle_b) = mk(self.max, true);
         let a = w
             .add_node(31, ConfigBuilder::new().with_notification_protocol(cfg_a).with_keep_alive_timeout(Duration::from_secs(60)))
             .expect("node a");
@@ -770,7 +781,7 @@ fn burst_program(mode: Mode, chan: usize, len: usize, sizes: Sizes, reader: Read
     if reader != Reader::Eager {
         program.push(Op::Gate(None));
     }
-    NotifScenario { max_sender: None, chan, max: MAX, eager: reader == Reader::Eager, window, program }
+    NotifScenario { max_sender: None, chan, max: MAX, eager: reader == Reader::Eager, window, program, receiver_fallback: false }
 }
 
 /// burst, Close, Open, burst — eager reader, or a stalled one that is given exactly the two tokens it needs to see
@@ -794,7 +805,7 @@ fn reopen_program(mode: Mode, chan: usize, len: usize, stalled: bool, back_to_ba
     if stalled {
         program.push(Op::Gate(None));
     }
-    NotifScenario { max_sender: None, chan, max: MAX, eager: !stalled, window: None, program }
+    NotifScenario { max_sender: None, chan, max: MAX, eager: !stalled, window: None, program, receiver_fallback: false }
 }
 
 /// the carrier accepts nothing while `n` notifications of 60000 bytes are sent: the outbound substream crosses its
@@ -805,7 +816,7 @@ fn big_program(mode: Mode, n: usize) -> NotifScenario {
         Mode::Sync => vec![Op::Window(Some(0)), Op::Burst { mode, items }, Op::Window(None)],
         Mode::Async => vec![Op::Window(Some(0)), Op::Burst { mode, items }, Op::Window(None)],
     };
-    NotifScenario { max_sender: None, chan: if mode == Mode::Sync { n + 1 } else { 2 }, max: MAX_BIG, eager: true, window: None, program }
+    NotifScenario { max_sender: None, chan: if mode == Mode::Sync { n + 1 } else { 2 }, max: MAX_BIG, eager: true, window: None, program, receiver_fallback: false }
 }
 
 /// more notifications than the receiver-side channel holds (4096) while the receiver's user does not read
@@ -823,7 +834,7 @@ fn deep_stall_program() -> NotifScenario {
         program.push(Op::Burst { mode: Mode::Sync, items });
     }
     program.push(Op::Gate(None));
-    NotifScenario { max_sender: None, chan: 64, max: MAX, eager: false, window: None, program }
+    NotifScenario { max_sender: None, chan: 64, max: MAX, eager: false, window: None, program, receiver_fallback: false }
 }
 
 fn mixed_mode_program(chan: usize, reader: Reader) -> NotifScenario {
@@ -836,7 +847,7 @@ fn mixed_mode_program(chan: usize, reader: Reader) -> NotifScenario {
     if reader != Reader::Eager {
         program.push(Op::Gate(None));
     }
-    NotifScenario { max_sender: None, chan, max: MAX, eager: reader == Reader::Eager, window: None, program }
+    NotifScenario { max_sender: None, chan, max: MAX, eager: reader == Reader::Eager, window: None, program, receiver_fallback: false }
 }
 
 fn cut_program(mode: Mode) -> NotifScenario {
@@ -847,7 +858,13 @@ fn cut_program(mode: Mode) -> NotifScenario {
         eager: true,
         window: Some(10),
         program: vec![Op::Burst { mode, items: vec![(1, MAX), (2, MAX)] }, Op::CutLink, Op::Burst { mode, items: vec![(3, 1)] }],
+        receiver_fallback: false,
     }
+}
+
+fn receiver_on_fallback_name(mut s: NotifScenario) -> NotifScenario {
+    s.receiver_fallback = true;
+    s
 }
 
 fn larger_sender_max(mut s: NotifScenario) -> NotifScenario {
@@ -876,6 +893,9 @@ pub fn scenarios(thorough: bool) -> Vec<(NotifScenario, usize)> {
             // the sender is configured with a larger maximum than the receiver: only the receiver can refuse
             v.push((larger_sender_max(burst_program(mode, 2, 3, Sizes::One(MAX + 1), Reader::Eager, None, false)), 2));
             v.push((larger_sender_max(burst_program(mode, 2, 5, Sizes::Mixed, Reader::Eager, None, true)), 2));
+            // ... and the stream runs under a fallback name on the receiving side (the size limit must not depend on it)
+            v.push((receiver_on_fallback_name(larger_sender_max(burst_program(mode, 2, 3, Sizes::One(MAX + 1), Reader::Eager, None, false))), 1));
+            v.push((receiver_on_fallback_name(burst_program(mode, 2, 3, Sizes::One(MAX), Reader::Eager, None, false)), 1));
             // reader patterns
             v.push((burst_program(mode, 2, 4, Sizes::One(2), Reader::Stalled, None, false), 2));
             v.push((burst_program(mode, 1, 4, Sizes::One(2), Reader::Every3rd, None, false), 2));
